@@ -287,7 +287,8 @@ def run_parallel(tasks, procs=None):
         out = pool.map(_run_task, range(len(tasks)), chunksize=1)
     _TASKS = []
     for r in out:
-        for o in r.obligations:
+        rr = r[0] if isinstance(r, tuple) else r
+        for o in rr.obligations:
             for attr in ("_bad",):
                 if hasattr(o, attr):
                     delattr(o, attr)
